@@ -170,6 +170,9 @@ def cases(ctx):
                     idx += 1
                     if ctx.mine(idx):
                         yield {'spec': spec_id, 'solver': solver, 'history': prefix + [op] + (['S', 'g'] if op in FLIPS or op == 'resolve' else []), 'systematic': True}
+    for it in range(ctx.budget(24, 400)):
+        # solves that do NOT converge (iteration / evaluation cap): the arrays left on the object are still those of the returned x
+        yield {'kind': 'failed_solve', 'spec': int(rng.integers(0, min(nspec, 4))), 'how': int(rng.integers(0, 5)), 'seed': int(rng.integers(0, 2 ** 31))}
     n = ctx.budget(480, 6400)
     maxlen = 16 if ctx.thorough() else 8
     for it in range(n):
@@ -208,7 +211,31 @@ def compare_value(ctx, op, got, ref, gmask, rtol, where):
     return close(got, ref, gmask if op == 'pmf' else None)
 
 
+FAILING = [('hybr', {'maxfev': 7}), ('krylov', {'line_search': 'wolfe', 'maxiter': 2}), ('lm', {'maxiter': 4}), ('anderson', {'maxiter': 2}), ('krylov', {'maxiter': 1})]
+
+
+def run_failed_solve(ctx, case):
+    sp = base_specs(ctx.seed)[int(case['spec'])]
+    method, opts = FAILING[int(case['how'])]
+    rng = np.random.default_rng(case['seed'])
+    p = G.build(sp).createPRISM()
+    guess = rng.normal(size=sp['L'] * len(sp['types']) ** 2) * 0.05
+    try:
+        with np.errstate(all='ignore'), warnings.catch_warnings():
+            warnings.simplefilter('ignore')
+            res = p.solve(guess=np.array(guess), method=method, options=dict(opts))
+    except G.SOLVE_ERRORS:
+        raise core.Skip('solver raised on the trial vector')
+    ctx.count('capped_solve', '%s%s -> %s' % (method, sorted(opts), 'converged' if res.success else 'not converged'))
+    ctx.hook('op.capped_solve')
+    check_root_state(ctx, p, sp, 'solve(method=%r, options=%r) that %s' % (method, opts, 'converged' if res.success else 'did not converge'))
+    if not res.success:
+        ctx.nontrivial(['failed_solve', case['spec'], case['how'], case['seed']])
+
+
 def run_case(ctx, case):
+    if case.get('kind') == 'failed_solve':
+        return run_failed_solve(ctx, case)
     pack = solved(ctx, int(case['spec']), case['solver'])
     if pack is None:
         raise core.Skip('base solve did not converge')
